@@ -319,27 +319,23 @@ pub fn check_derived_one<D: Derived>(t: &[Val]) -> (Vec<Finding>, Option<Vec<u8>
             return (out, None);
         }
     };
+    // not demanded by the property, but it explains a failing round trip: does the derived Into
+    // write what extend/extend_with_key write for the declared directions?
+    let mut differs = String::new();
     if let Ok(direct) = try_encode(Crate::V1, &fields, &schema, t) {
         if direct != enc {
-            // the first field whose direct encoding is no longer a prefix of the derived bytes
-            let mut culprit = "end".to_string();
             for n in 1..=schema.len() {
                 let p = encode(Crate::V1, &fields[..n], &schema[..n], &t[..n]);
                 if !enc.starts_with(&p) {
-                    culprit = elem_name(&schema[n - 1]);
+                    differs = format!(
+                        "; the derived Into<TupleKey> differs from extend_with_key at field {n} ({}): derived {}, direct {}",
+                        elem_name(&schema[n - 1]),
+                        esc(&enc),
+                        esc(&direct)
+                    );
                     break;
                 }
             }
-            out.push(Finding {
-                sig: format!("c16:tuple_key_derive:encoding-differs-from-extend-with-key:{culprit}"),
-                detail: format!(
-                    "{}: derived Into<TupleKey> of {:?} gives {}, extend/extend_with_key with the declared directions gives {}",
-                    D::NAME,
-                    t,
-                    esc(&enc),
-                    esc(&direct)
-                ),
-            });
         }
     }
     let e2 = enc.clone();
@@ -358,7 +354,7 @@ pub fn check_derived_one<D: Derived>(t: &[Val]) -> (Vec<Finding>, Option<Vec<u8>
             }
             out.push(Finding {
                 sig: format!("c16:tuple_key_derive:roundtrip:decode-error:{culprit}:{}", serror_cause(&text)),
-                detail: format!("{}: TryFrom(Into({:?})) fails: {text}; encoding {}", D::NAME, t, esc(&enc)),
+                detail: format!("{}: TryFrom(Into({:?})) fails: {text}; encoding {}{differs}", D::NAME, t, esc(&enc)),
             })
         }
         Ok(Ok(v)) => {
